@@ -46,6 +46,11 @@ def gen_numbers(rng, n):
             for _ in range(rng.randint(0, 2)):
                 x = math.nextafter(x, rng.choice([0.0, 1e300]))
             out.append(x)
+        elif k < 0.5:
+            # just below / above a rounding boundary by a visible margin (a pre-rounding step would move these)
+            d = rng.randint(0, 3)
+            b_ = Fraction(rng.randint(0, 10 ** (3 - d))) + Fraction(2 * rng.randint(0, 10 ** d) + 1, 2 * 10 ** d)
+            out.append(float(b_ + rng.choice([-1, 1]) * Fraction(rng.choice([1, 4, 30, 200]), 10 ** rng.choice([6, 7, 8, 9]))))
         elif k < 0.55:
             out.append(rng.randint(0, 10 ** 6) / 2 ** rng.randint(0, 12))
         elif k < 0.62:
@@ -151,7 +156,30 @@ def check_one(x):
     return out
 
 
+def check_quantity_sequence():
+    """numbers inside quantities: a decimal and the equal fraction shown one after the other in one process"""
+    from recipe_grid.recipe import Quantity
+    from recipe_grid.renderer.html import render_quantity
+    out = []
+    for f, q in [(0.5, Fraction(1, 2)), (1.125, Fraction(9, 8)), (0.0625, Fraction(1, 16)), (1.5, Fraction(3, 2)), (2.0, 2), (0.25, Fraction(1, 4))]:
+        for first, second in ((f, q), (q, f)):
+            for unit in ("tsp", None, "handful"):
+                texts = []
+                for v in (first, second):
+                    h = render_quantity(Quantity(v, unit, " " if unit else ""))
+                    h = re.sub(r"<ul.*?</ul>", "", h, flags=re.S)
+                    texts.append(re.sub(r"<[^>]*>", "", h).replace("&frasl;", "/").split()[0] if unit else re.sub(r"<[^>]*>", "", h).replace("&frasl;", "/").strip())
+                want = [format_number(first), format_number(second)]
+                want = [w if " " not in w else w.split()[0] for w in want] if unit else want
+                if texts != want:
+                    out.append(("C11:quantity-shows-another-quantitys-number", "Quantity(%r, %r) then Quantity(%r, %r) shown as %r" % (first, unit, second, unit, texts)))
+    return out
+
+
 def oracle(run):
+    run.case(("quantity-sequence",), True, kind="quantity-sequence")
+    for sig, detail in check_quantity_sequence():
+        run.violate(sig, detail, {"quantity_sequence": True})
     xs = list(CORPUS)
     for g, inp in run.focus:
         if g == "format_number":
@@ -164,6 +192,11 @@ def oracle(run):
 
 
 def replay(run, obj):
+    if obj["replay"].get("quantity_sequence"):
+        res = check_quantity_sequence()
+        for r in res:
+            print(*r)
+        return bool(res)
     x = eval(obj["replay"]["number"], {"Fraction": Fraction})
     res = check_one(x)
     for sig, detail in res:
